@@ -92,10 +92,11 @@ const (
 	opChase
 	opNack
 	opWaitCancel
+	opSnapCombo
 	nOps
 )
 
-var opNames = [...]string{"createTopic", "deleteTopic", "createSub", "deleteSub", "updateSub", "publish", "pull", "ack", "modack", "seekTime", "snapshot", "seekSnap", "advance", "job", "dlSweep", "expirySweep", "setDelay", "fault", "restart", "deleteSnap", "pullAck", "chase", "nack", "waitCancel"}
+var opNames = [...]string{"createTopic", "deleteTopic", "createSub", "deleteSub", "updateSub", "publish", "pull", "ack", "modack", "seekTime", "snapshot", "seekSnap", "advance", "job", "dlSweep", "expirySweep", "setDelay", "fault", "restart", "deleteSnap", "pullAck", "chase", "nack", "waitCancel", "snapCombo"}
 
 func baseWeights() []int {
 	w := make([]int, nOps)
@@ -123,6 +124,7 @@ func baseWeights() []int {
 	w[opChase] = 0
 	w[opNack] = 3
 	w[opWaitCancel] = 1
+	w[opSnapCombo] = 1
 	return w
 }
 
@@ -164,6 +166,7 @@ func (r *Run) configure() {
 		w[opAdvance] *= 2
 		w[opPull] *= 2
 	case "seek":
+		w[opSnapCombo] = 5
 		w[opSeekTime] = 8
 		w[opSnapshot] = 6
 		w[opSeekSnap] = 8
@@ -171,6 +174,7 @@ func (r *Run) configure() {
 	case "snap":
 		// snapshots taken and sought while background pruning removes completed rows
 		r.jobsOn = true
+		w[opSnapCombo] = 5
 		w[opJob] = 8
 		w[opSnapshot] = 8
 		w[opSeekSnap] = 10
@@ -464,6 +468,8 @@ func (r *Run) step() *Violation {
 		return r.doNack()
 	case opWaitCancel:
 		return r.doWaitCancel(t.Intn(r.nSubs))
+	case opSnapCombo:
+		return r.doSnapCombo(t.Intn(r.nSubs))
 	case opFault:
 		r.doArmFault()
 		return nil
@@ -1785,4 +1791,67 @@ func (r *Run) doWaitCancel(i int) *Violation {
 	r.M.probe("waiting_pull_cancelled")
 	ms.ActLo, ms.ActHi = t0, t1
 	return nil
+}
+
+// doSnapCombo: the pattern snapshots exist for, in one step: pull on a subscription,
+// acknowledge out of order (everything but the oldest received message), snapshot it, then
+// seek a sibling subscription of the topic (or the same one) to that snapshot.
+func (r *Run) doSnapCombo(i int) *Violation {
+	t := r.T
+	a := r.M.LiveSub(subName(i))
+	if a == nil {
+		return nil
+	}
+	if v := r.doPull(i, false); v != nil {
+		return v
+	}
+	if a = r.M.LiveSub(subName(i)); a == nil {
+		return nil
+	}
+	var out []*ED
+	for _, e := range a.EDs {
+		if e.State == stOut && !e.Fuzzy && !e.DLMaybe && e.AckID != "" {
+			out = append(out, e)
+		}
+	}
+	if len(out) >= 2 {
+		sort.Slice(out, func(x, y int) bool { return out[x].Msg.Seq < out[y].Msg.Seq })
+		var ids []string
+		for _, e := range out[1:] {
+			if t.Bool(80) {
+				ids = append(ids, e.AckID)
+			}
+		}
+		if len(ids) > 0 {
+			if v := r.ackIDs(a.Name, ids); v != nil {
+				return v
+			}
+		}
+	}
+	ni := t.Intn(3)
+	if v := r.doSnapshot(ni, i); v != nil {
+		return v
+	}
+	r.M.probe("snap_combo")
+	target := i
+	var sib []int
+	for j := 0; j < r.nSubs; j++ {
+		if b := r.M.LiveSub(subName(j)); b != nil && j != i && a.Topic == b.Topic {
+			sib = append(sib, j)
+		}
+	}
+	if len(sib) > 0 && t.Bool(70) {
+		target = sib[t.Intn(len(sib))]
+	}
+	if t.Bool(30) {
+		// let something happen in between
+		for ti := 0; ti < r.nTopics; ti++ {
+			if topicName(ti) == a.Topic.Name {
+				if v := r.doPublish(ti); v != nil {
+					return v
+				}
+			}
+		}
+	}
+	return r.doSeekSnap(target, ni)
 }
